@@ -43,6 +43,7 @@ def gen_case(rng, index, tier):
         canaries.append(cdir + '-file')
     n_out = 0
     extra = []
+    abyss = False
     for j in range(rng.randint(1, 4)):
         t = rng.choice(trashes)
         can = rng.choice(canaries)
@@ -59,6 +60,9 @@ def gen_case(rng, index, tier):
         else:
             target = os.path.relpath('/' + can, '/' + os.path.dirname(pay))
         shape = rng.choice(['link', 'link', 'tree', 'deep'])
+        if rng.random() < 0.02 and '\n' not in name:
+            shape = 'abyss'
+            abyss = True
         base = (L.home if t['home'] else t['volume'])
         loc = '/'.join(x for x in (base, 'docs', 'orig-' + name.replace('\n', '_')) if x)
         pv = trashgen.path_value(loc, t['volume'], t['home'])
@@ -67,6 +71,19 @@ def gen_case(rng, index, tier):
                'sub': True})
         if shape == 'link':
             L.add({'p': pay, 't': 'l', 'to': target})
+        elif shape == 'abyss':
+            # deeper than Python's recursion limit (a recursive remover gives
+            # up, whatever takes over must not follow links either); outward
+            # links sit at the bottom and half way down
+            L.add({'p': pay, 't': 'd', 'm': 0o755})
+            cur = pay
+            depth = rng.choice([230, 260, 300])
+            for dpt in range(depth):
+                cur = cur + '/d'
+                L.add({'p': cur, 't': 'd', 'm': 0o755})
+                if dpt in (depth // 2, depth - 1):
+                    L.add({'p': cur + '/out', 't': 'l', 'to': '@/' + can})
+                    L.add({'p': cur + '/f', 't': 'f', 'c': 'deep file'})
         else:
             L.add({'p': pay, 't': 'd', 'm': 0o755})
             cur = pay
@@ -141,6 +158,7 @@ def gen_case(rng, index, tier):
     case['n_out'] = n_out
     case['odd'] = odd
     case['via_link'] = via_link
+    case['abyss'] = abyss
     case['entries'] = entries
     case['fseed'] = rng.getrandbits(30)
     case['nfaults'] = 2
@@ -153,12 +171,18 @@ def run_case(case):
     with world.World(case) as w:
         s0 = w.snapshot()
         opts = [world.subst(o, w.R) for o in case['opts']]
+        plan0 = {}
+        if case.get('abyss'):
+            plan0 = {'recursion_limit': 220}
+            obs['deeper_than_recursion_limit'] = 1
         if case['cmd'] == 'empty':
-            r = run.run(w, 'empty', opts, stdin=b'')
+            r = run.run(w, 'empty', opts, stdin=b'', plan=plan0)
         elif case['cmd'] == 'empty-days':
-            r = run.run(w, 'empty', opts + [str(case['days'])], stdin=b'')
+            r = run.run(w, 'empty', opts + [str(case['days'])], stdin=b'', plan=plan0)
         else:
-            r = run.run(w, 'rm', [case['pattern']], stdin=b'')
+            r = run.run(w, 'rm', [case['pattern']], stdin=b'', plan=plan0)
+        if case.get('abyss') and 'RecursionError' in r.errtext():
+            obs['recursion_errors_seen'] = 1
         s1 = w.snapshot()
         if r.timeout or r.audit_ok() is False:
             out['verdict'] = 'inconclusive'
